@@ -201,7 +201,7 @@ def main(argv):
             key = mod.debug_class(v[1].split()) if hasattr(mod, 'debug_class') else v[1].split()[0]
             dbg.setdefault(key, []).append(v)
         for k, vs in sorted(dbg.items(), key=lambda kv: -len(kv[1])):
-            print('DEBUG class', k, len(vs), '| e.g.', vs[0][1][:300], '=> model', vs[0][2][:200])
+            print(('DEBUG class %s %d | e.g. %s => model %s' % (k, len(vs), vs[0][1][:300], vs[0][2][:200]))[:700])
     if new_fails:
         shr = getattr(mod, 'shrink', None)
         entries = []
@@ -222,7 +222,7 @@ def main(argv):
         print('VIOLATION property=%s replay=%s' % (pid, os.path.relpath(path, VERIF)))
         violation_lines.append(path)
         for e in entries[:5]:
-            print('  failing input:', e['line'], '| observed', e['observed'], '| model', e['model'])
+            print(('  failing input: %s | observed %s | model %s' % (e['line'], e['observed'], e['model']))[:700])
         rc = 1
     elif disagree and not fails:
         entries = [{'line': v[1].split(' | ')[0], 'observed': v[1].split(' | ')[1] if ' | ' in v[1] else '',
